@@ -107,14 +107,26 @@ var (
 
 // Variant selects one concrete spelling of the same abstract program.
 //
-//	0 canonical (what the formatter aims for), 1 compact, 2 loose
+//	0 canonical (what the formatter aims for), 1 compact, 2 loose,
+//	3 odd: canonical layout with unusual but valid spellings of single constructs (see Odd*)
 type Variant int
 
-const Variants = 3
+const Variants = 4
+
+// LayoutVariants are the spellings whose formatted output the layout model (FmtLayout.tla) predicts.
+const LayoutVariants = 3
+
+// Features of the "odd" spelling; OddMask can switch them off one at a time to attribute a failure.
+const (
+	OddGoCodeTwo   = 1 << iota // two statements on one line inside {{ }}
+	OddCondOneLine             // conditional attribute written on one line
+	OddAll         = OddGoCodeTwo | OddCondOneLine
+)
 
 type printer struct {
-	sb strings.Builder
-	v  Variant
+	sb  strings.Builder
+	v   Variant
+	odd int // feature mask of the odd spelling (variant 3)
 }
 
 func (p *printer) ws(kind string, depth int) {
@@ -129,7 +141,7 @@ func (p *printer) ws(kind string, depth int) {
 		}
 	case "v":
 		switch p.v {
-		case 0:
+		case 0, 3:
 			p.sb.WriteString("\n" + strings.Repeat("\t", depth))
 		case 1:
 			p.sb.WriteString("\n")
@@ -144,6 +156,8 @@ func num(id string) string { return id[1:] }
 
 func (p *printer) expr(id string) string {
 	call := "env." + id[:1] + "(" + num(id) + ")"
+	// (a string expression with a trailing line comment, `{ e // c <newline> }`, parses but its generated Go is not
+	// gofmt-valid, so it is not an accepted template and is outside the properties' precondition)
 	switch p.v {
 	case 1:
 		return "{" + call + "}"
@@ -199,7 +213,24 @@ func (p *printer) attrs(as []Attr, depth int) {
 				fmt.Fprintf(&p.sb, "%s{ env.M(%s)... }", sep, num(a.M))
 			}
 		case "cond":
-			// conditional attributes are always written on their own lines
+			if p.v == 3 && p.odd&OddCondOneLine != 0 {
+				fmt.Fprintf(&p.sb, " if env.C(%s) {", num(a.C))
+				for _, t := range a.Then {
+					p.sb.WriteString(" ")
+					p.attrs1(t)
+				}
+				p.sb.WriteString(" }")
+				if len(a.Else) > 0 {
+					p.sb.WriteString(" else {")
+					for _, t := range a.Else {
+						p.sb.WriteString(" ")
+						p.attrs1(t)
+					}
+					p.sb.WriteString(" }")
+				}
+				continue
+			}
+			// conditional attributes are otherwise written on their own lines
 			in := "\n" + strings.Repeat("\t", depth+1)
 			fmt.Fprintf(&p.sb, "%sif env.C(%s) {", in, num(a.C))
 			for _, t := range a.Then {
@@ -223,7 +254,7 @@ func (p *printer) attrs(as []Attr, depth int) {
 func (p *printer) attrs1(a Attr) {
 	var q printer
 	q.v = p.v
-	if q.v == 2 {
+	if q.v == 2 || q.v == 3 {
 		q.v = 0
 	}
 	q.attrs([]Attr{a}, 0)
@@ -236,7 +267,7 @@ func (p *printer) nodes(ns []Node, depth int) {
 		// templ's parsers for `{ ... }` nodes swallow leading SPACES (openBraceWithOptionalPadding), so spaces
 		// between a node without trailing-space information and a `{` would not be a whitespace node:
 		// write a tab, the class (horizontal) is what the abstract program fixes.
-		if i+1 < len(ns) && (n.K == "slot" || n.K == "hcomment" || n.K == "mcomment" || n.K == "raw") && n.After == "h" {
+		if i+1 < len(ns) && (n.K == "slot" || n.K == "hcomment" || n.K == "mcomment" || n.K == "raw" || n.K == "call") && n.After == "h" {
 			switch ns[i+1].K {
 			case "slot", "expr", "gocode":
 				if p.v != 2 {
@@ -326,12 +357,13 @@ func (p *printer) node(n Node, depth int) {
 		p.sb.WriteString("}")
 		p.ws("v", depth)
 	case "call":
-		if p.v == 2 {
+		// a call that is not followed by a line break can only be written with the legacy syntax
+		if p.v == 2 || n.After != "v" {
 			p.sb.WriteString("{! " + n.Comp + "() }")
 		} else {
 			p.sb.WriteString("@" + n.Comp + "()")
 		}
-		p.ws("v", depth)
+		p.ws(n.After, depth)
 	case "callb":
 		p.sb.WriteString("@" + n.Comp + "() {")
 		p.body(n.Body, depth)
@@ -345,7 +377,9 @@ func (p *printer) node(n Node, depth int) {
 		}
 		p.ws(n.After, depth)
 	case "gocode":
-		if p.v == 1 {
+		if p.v == 3 && p.odd&OddGoCodeTwo != 0 {
+			p.sb.WriteString("{{ env.G(); _ = 0 }}")
+		} else if p.v == 1 {
 			p.sb.WriteString("{{env.G()}}")
 		} else {
 			p.sb.WriteString("{{ env.G() }}")
@@ -415,7 +449,12 @@ func (p *printer) dedentLast() {
 
 // TemplateBody prints the node list of one template in the given spelling.
 func TemplateBody(prog []Node, v Variant) string {
-	p := &printer{v: v}
+	return TemplateBodyOdd(prog, v, OddAll)
+}
+
+// TemplateBodyOdd is TemplateBody with an explicit feature mask for the odd spelling.
+func TemplateBodyOdd(prog []Node, v Variant, odd int) string {
+	p := &printer{v: v, odd: odd}
 	p.ws("v", 1)
 	p.kids(prog, 1)
 	p.trimToLine()
